@@ -34,6 +34,9 @@ where
                 Op::SetNodes {
                     data_centers: new_data_centers,
                 } => {
+                    // The new layout replaces the old one: data centers which are
+                    // no longer part of the cluster must not be selected anymore.
+                    data_centers.clear();
                     let mut new_total = 0;
                     for (name, nodes) in new_data_centers {
                         new_total += nodes.len();
